@@ -23,6 +23,14 @@ Section Spec.
   Definition stack := list string.
   Definition on_stack (n : string) (st : stack) : bool := existsb (String.eqb n) st.
   Definition is_cyc (e : ereason) : bool := match e with ECyclic => true | _ => false end.
+  (* an error raised after (or out of) an absorbed cyclic error carries the flag in its path text *)
+  Definition taint {A : Type} (m : bool) (r : SR A) : SR A :=
+    match r with
+    | Ok (x, m') => Ok (x, m || m')
+    | Err e p => if m && negb (err_marked p) then Err e (mark_pfx +++ p) else r
+    | x => x
+    end.
+  Definition cyc_err (e : ereason) (p : string) : bool := is_cyc e || err_marked p.
 
   Section Step.
     (* evaluate a dynamic value completely: the result is no reference and no expression *)
@@ -43,7 +51,7 @@ Section Spec.
         | VNil => Ok (Some {| l_root := l_root w; l_path := l_path w; l_val := empty_cfg |}, m)
         | _ => Ok (None, m)
         end
-      | Err _ _ => Ok (None, false)
+      | Err e p => Ok (None, cyc_err e p)
       | Panic => Panic
       | OutOfModel => OutOfModel
       end.
@@ -112,15 +120,14 @@ Section Spec.
 
     Definition to_string_s (st : stack) (v : loc) : SR string :=
       w <- force1 st v ;;
-      s <- simple_string (eo_ftext o) (l_val (fst w)) ;;
-      Ok (s, snd w).
+      taint (snd w) (s <- simple_string (eo_ftext o) (l_val (fst w)) ;; Ok (s, false)).
 
     (* reference.resolve inside an expression: the value found, evaluated under the name *)
     Definition ref_eval_s (root : value) (st : stack) (p : list field) (sep : string) : SR string :=
       let name := path_str p sep in
       let '(r, m) := resolve_ref_s root st p sep in
       match r with
-      | RFound v => x <- to_string_s (name :: st) v ;; Ok (fst x, m || snd x)
+      | RFound v => taint m (to_string_s (name :: st) v)
       | RStop Panic => Panic
       | RStop _ => OutOfModel
       | RNone | RMissing | RCyclic | RCritical _ _ =>
@@ -128,9 +135,9 @@ Section Spec.
            the resolvers *)
         match resolve_env o name with
         | Some (s, _) =>
-          if String.eqb s "" then Err EOther "!raw"
+          if String.eqb s "" then taint m (Err EOther "!raw")
           else Ok (s, m || match r with RCyclic => true | _ => false end)
-        | None => match r with RCyclic => Err ECyclic "" | RCritical e pth => Err e pth | _ => Err EMissing "!raw" end
+        | None => taint m (match r with RCyclic => Err ECyclic "" | RCritical e pth => Err e pth | _ => Err EMissing "!raw" end)
         end
       end.
 
@@ -145,7 +152,7 @@ Section Spec.
       | RNone | RMissing | RCyclic | RCritical _ _ =>
         match resolve_env o name with
         | Some (s, _) => Ok (negb (String.eqb s ""), m || match r with RCyclic => true | _ => false end)
-        | None => match r with RCyclic => Err ECyclic "" | RCritical e pth => Err e pth | _ => Err EMissing "!raw" end
+        | None => taint m (match r with RCyclic => Err ECyclic "" | RCritical e pth => Err e pth | _ => Err EMissing "!raw" end)
         end
       end.
 
@@ -159,25 +166,24 @@ Section Spec.
         (fix pieces (l : list vexp) (acc : string) (m : bool) {struct l} : SR string :=
            match l with
            | [] => Ok (acc, m)
-           | x :: r => y <- exp_s x root st ;; pieces r (acc +++ fst y) (m || snd y)
+           | x :: r => y <- taint m (exp_s x root st) ;; pieces r (acc +++ fst y) (snd y)
            end) ps "" false
       | ESingle x sep =>
         y <- exp_s x root st ;;
-        z <- ref_eval_s root st (pth (fst y) (p_sep po)) (p_sep po) ;;
-        Ok (fst z, snd y || snd z)
+        taint (snd y) (ref_eval_s root st (pth (fst y) (p_sep po)) (p_sep po))
       | EDefault l r sep =>
-        let dflt (m : bool) : SR string := y <- exp_s r root st ;; Ok (fst y, m || snd y) in
+        let dflt (m : bool) : SR string := taint m (exp_s r root st) in
         match exp_s l root st with
         | Ok (path, m1) =>
           if String.eqb path "" then dflt m1
           else
             match ref_eval_s root st (pth path sep) sep with
             | Ok (v, m2) => if String.eqb v "" then dflt (m1 || m2) else Ok (v, m1 || m2)
-            | Err e _ => dflt (m1 || is_cyc e)
+            | Err e p => dflt (m1 || cyc_err e p)
             | Panic => Panic
             | OutOfModel => OutOfModel
             end
-        | Err e _ => dflt (is_cyc e)
+        | Err e p => dflt (cyc_err e p)
         | Panic => Panic
         | OutOfModel => OutOfModel
         end
@@ -187,29 +193,29 @@ Section Spec.
           if String.eqb path "" then Ok ("", m1)
           else
             match ref_set_s root st (pth path sep) sep with
-            | Ok (true, m2) => y <- exp_s r root st ;; Ok (fst y, m1 || m2 || snd y)
+            | Ok (true, m2) => taint (m1 || m2) (exp_s r root st)
             | Ok (false, m2) => Ok ("", m1 || m2)
-            | Err e _ => Ok ("", m1 || is_cyc e)
+            | Err e p => Ok ("", m1 || cyc_err e p)
             | Panic => Panic
             | OutOfModel => OutOfModel
             end
-        | Err e _ => Ok ("", is_cyc e)
+        | Err e p => Ok ("", cyc_err e p)
         | Panic => Panic
         | OutOfModel => OutOfModel
         end
       | EErr l r sep =>
-        let fail : SR string := y <- exp_s r root st ;; Err EOther "!raw" in
+        let fail (m : bool) : SR string := y <- taint m (exp_s r root st) ;; taint (snd y) (Err EOther "!raw") in
         match exp_s l root st with
         | Ok (path, m1) =>
-          if String.eqb path "" then fail
+          if String.eqb path "" then fail m1
           else
             match ref_eval_s root st (pth path sep) sep with
-            | Ok (v, m2) => if String.eqb v "" then fail else Ok (v, m1 || m2)
-            | Err _ _ => fail
+            | Ok (v, m2) => if String.eqb v "" then fail (m1 || m2) else Ok (v, m1 || m2)
+            | Err e p => fail (m1 || cyc_err e p)
             | Panic => Panic
             | OutOfModel => OutOfModel
             end
-        | Err _ _ => fail
+        | Err e p => fail (cyc_err e p)
         | Panic => Panic
         | OutOfModel => OutOfModel
         end
@@ -222,20 +228,20 @@ Section Spec.
         let name := path_str p sep in
         let '(r, m) := resolve_ref_s root st p sep in
         match r with
-        | RFound v => x <- force1 (name :: st) v ;; Ok (fst x, m || snd x)
+        | RFound v => taint m (force1 (name :: st) v)
         | RStop Panic => Panic
         | RStop _ => OutOfModel
         | RNone | RMissing | RCyclic | RCritical _ _ =>
           match resolve_env o name with
           | Some (s, pc) =>
-            v <- parse_value o root dp s pc ;;
-            Ok (v, m || match r with RCyclic => true | _ => false end)
-          | None => match r with RCyclic => Err ECyclic "" | RCritical e pth => Err e pth | _ => Err EMissing "!raw" end
+            taint (m || match r with RCyclic => true | _ => false end)
+                  (v <- parse_value o root dp s pc ;; Ok (v, false))
+          | None => taint m (match r with RCyclic => Err ECyclic "" | RCritical e pth => Err e pth | _ => Err EMissing "!raw" end)
           end
         end
       | VSplice e =>
         x <- exp_s e root st ;;
-        v <- parse_value o root dp (fst x) DefaultConfig ;; Ok (v, snd x)
+        taint (snd x) (v <- parse_value o root dp (fst x) DefaultConfig ;; Ok (v, false))
       | v => Ok ({| l_root := root; l_path := dp; l_val := v |}, false)
       end.
   End Step.
@@ -251,9 +257,9 @@ Section Spec.
     let p := opts_path_idx (eo_p o) name idx in
     x <- get_path_s (dyn_s fuel) p [] {| l_root := root; l_path := ""; l_val := root |} ;;
     match fst x with
-    | Ok (Some v) => y <- to_string_s (dyn_s fuel) [] v ;; Ok (fst y, snd x || snd y)
-    | Ok None => Err EMissing (path_str p (p_sep (eo_p o)))
-    | Err e pth => Err e pth
+    | Ok (Some v) => taint (snd x) (to_string_s (dyn_s fuel) [] v)
+    | Ok None => taint (snd x) (Err EMissing (path_str p (p_sep (eo_p o))))
+    | Err e pth => taint (snd x) (Err e pth)
     | Panic => Panic
     | OutOfModel => OutOfModel
     end.
@@ -275,8 +281,7 @@ Section Spec.
       | VStr s => Ok (XStr s, false)
       | VRef _ _ | VSplice _ =>
         x <- dyn_s fuel (l_root v) [] (l_path v) (l_val v) ;;
-        y <- reify_s fuel n' (fst x) ;;
-        Ok (fst y, snd x || snd y)
+        taint (snd x) (reify_s fuel n' (fst x))
       | VSub d ar =>
         sd <- (fix gd (l : list (string * (string * value))) : res (list (string * otree_like) * bool) :=
                  match l with
